@@ -1,5 +1,6 @@
 import IwModel.Lemmas.BinnRoundtrip
-import IwModel.Model.BinnPrint
+import IwModel.Lemmas.BinnPrint
+import IwModel.Lemmas.JsonPtrRfc
 import IwModel.Model.TreeClone
 /-! # C14 — text, tree and binary forms of a document agree, and so do path look-ups
 
@@ -8,7 +9,7 @@ Property theorems only; helper lemmas live in `IwModel/Lemmas`. `Binn.wf v` is t
 **string values are NUL free** (open finding C14-NUL, see `nul_string_cut`). `small v` says the encoded document
 is shorter than 2^31 - 9 bytes (the binn size fields are 31 bits wide). -/
 namespace IwModel.C14
-open IwModel IwModel.Binn
+open IwModel IwModel.Binn IwModel.Ptr IwModel.BinnPrint
 
 /-- the encoded document fits the 31-bit size fields -/
 def small (v : JVal) : Prop := ∀ bs, enc v = some bs → bs.length + 9 < 2 ^ 31
@@ -27,6 +28,163 @@ theorem binn_roundtrip (v : JVal) (hw : wf v = true) (hs : small v) :
   | obj ms => simp only [viewOf, he, Option.getD_some, fuelOf]; omega
   | _ => simp [depth, viewOf, fuelOf]
 
+/-- **both forms print the same text** (`jbn_as_json` with indent 1 vs `jbl_as_json`), compact or pretty, for
+    *every* formatting `L` of integers, doubles and strings (including one that fails on some strings) -/
+theorem print_agree (L : Leaf) (pretty : Bool) (v : JVal) (hw : wf v = true) (hs : small v) :
+    ∃ b, fromNode v = some b ∧ printBinn L pretty (fuelOf b) 0 b = printTree L pretty 1 0 v := by
+  obtain ⟨bs, he⟩ := enc_isSome v hw
+  refine ⟨viewOf v, fromNode_eq_viewOf v hw, ?_⟩
+  apply printBinn_view L pretty v _ 0 bs hw he (hs bs he)
+  have hd := depth_le v bs he
+  cases v with
+  | arr xs => simp only [viewOf, he, Option.getD_some, fuelOf]; omega
+  | obj ms => simp only [viewOf, he, Option.getD_some, fuelOf]; omega
+  | _ => simp [depth, viewOf, fuelOf]
+
+/-- **pointer parsing**: a NUL-free pointer that is empty or starts with `/`, has a non-empty last token (or is
+    `/` itself) and in which every `~` is followed by `0` or `1` is split by `_jbl_ptr_pool` into exactly the
+    RFC 6901 reference tokens (split at `/`, then `~1` → `/`, then `~0` → `~`). -/
+theorem ptr_parse_spec (p : Bytes) (hn : ∀ b ∈ p, b ≠ 0) (ht : tildesOk p = true)
+    (hl : ¬ (p.length > 1 ∧ p.getLast? = some 47)) (hs : p = [] ∨ p.head? = some 47) :
+    parse p = rfcSegments p := by
+  unfold parse
+  rw [cstr_id p hn]
+  cases p with
+  | nil => rfl
+  | cons c rest =>
+    have hc : c = 47 := by simpa using hs
+    subst hc
+    have ht' : tildesOk rest = true := by
+      rw [tildesOk.eq_5] at ht
+      · exact ht
+      all_goals (intros; simp_all)
+    simp only [ne_eq, not_true_eq_false, if_false, if_neg hl, ht, Bool.not_true, Bool.false_eq_true, rfcSegments]
+    rw [fill_eq_split rest ht']
+
+/-- pointers that RFC 6901 does not admit (not starting with `/`) are rejected -/
+theorem ptr_parse_rejects (c : Nat) (rest : Bytes) (hc : c ≠ 47) (h0 : c ≠ 0) :
+    parse (c :: rest) = none ∧ rfcSegments (c :: rest) = none := by
+  constructor
+  · simp [parse, cstr, h0, hc]
+  · unfold rfcSegments
+    split
+    · rename_i heq; simp at heq
+    · rename_i heq; simp only [List.cons.injEq] at heq; exact absurd heq.1 hc
+    · rfl
+
+/-- **look-ups agree and equal RFC 6901**: for a well-formed document and tokens that are NUL free and not the
+    wildcard (at most `JBL_MAX_NESTING_LEVEL` of them), `jbn_at2` on the tree and `jbl_at2` on the binary form
+    both return the element RFC 6901 designates — the binary side as the holder (`viewOf`) of that element —
+    and both report an error (no element) exactly when RFC 6901 designates nothing. -/
+theorem at_agree (v : JVal) (jp : List Bytes) (hw : wf v = true) (hs : small v)
+    (hlen : jp.length ≤ Gen.Binn.JBL_MAX_NESTING_LEVEL) (hj : ∀ seg ∈ jp, segOk seg) :
+    ∃ b, fromNode v = some b ∧
+      (atTree2 v jp).toOption = rfcGet v jp ∧
+      (atBinn2 b jp).toOption = (rfcGet v jp).map viewOf := by
+  obtain ⟨bs, he⟩ := enc_isSome v hw
+  refine ⟨viewOf v, fromNode_eq_viewOf v hw, ?_, ?_⟩
+  · rw [atTree2_eq_btGet v jp hlen, bt_rfc v jp hw hj]
+    cases rfcGet v jp <;> rfl
+  · cases jp with
+    | nil => simp [atBinn2, rfcGet, Except.toOption]
+    | cons seg rest =>
+      have hbt := bt_rfc v (seg :: rest) hw hj
+      obtain ⟨st', h, o⟩ := tvNode_on (seg :: rest) hlen v 0 seg rest ⟨0, false, none⟩ rfl rfl rfl (Nat.le_refl _)
+      by_cases hc : isContainer v = true
+      · have hv := viewOf_cont v bs hc he
+        have hsim := sim_node (seg :: rest) hlen v (bs.length + 1) 0 bs ⟨0, false, none⟩ st' hw he (hs bs he)
+          (by have := depth_le v bs he; omega) hc (Nat.zero_le _) h
+        have hpi : ∃ hd, iterInit bs = some hd := by
+          cases v with
+          | arr xs =>
+            simp only [enc, Option.map_eq_some_iff] at he
+            obtain ⟨body, hb, rfl⟩ := he
+            have := hs (container Gen.Binn.BINN_LIST xs.length body) (by simp [enc, hb])
+            have hl2 := encList_length xs body hb
+            have hcl := container_length Gen.Binn.BINN_LIST xs.length body
+            obtain ⟨h', hi, _, _⟩ := iterInit_container Gen.Binn.BINN_LIST xs.length body (Or.inl rfl) (by omega) (by omega)
+            exact ⟨_, hi⟩
+          | obj ms =>
+            simp only [enc, Option.map_eq_some_iff] at he
+            obtain ⟨body, hb, rfl⟩ := he
+            have := hs (container Gen.Binn.BINN_OBJECT ms.length body) (by simp [enc, hb])
+            have hl2 := encMembers_length [] ms body hb
+            have hcl := container_length Gen.Binn.BINN_OBJECT ms.length body
+            obtain ⟨h', hi, _, _⟩ := iterInit_container Gen.Binn.BINN_OBJECT ms.length body (Or.inr rfl) (by omega) (by omega)
+            exact ⟨_, hi⟩
+          | _ => simp [isContainer] at hc
+        obtain ⟨hd', hi⟩ := hpi
+        rw [hv]
+        simp only [atBinn2, List.length_cons, Nat.succ_ne_zero, if_false, hi]
+        have : (VS.map viewOf ⟨0, false, none⟩ : VS BVal) = ⟨0, false, none⟩ := rfl
+        rw [this] at hsim
+        rw [hsim, ← hbt]
+        cases hb : btGet v (seg :: rest) with
+        | some r => rw [hb] at o; simp only [Outcome] at o; simp [VS.map, o.2, Except.toOption]
+        | none => rw [hb] at o; simp only [Outcome] at o; simp [VS.map, o.2.1, Except.toOption]
+      · have hr : rfcGet v (seg :: rest) = none := by
+          cases v <;> simp [isContainer] at hc <;> simp [rfcGet, rfcStep]
+        rw [hr]
+        cases v <;> simp [isContainer] at hc <;> simp [viewOf, atBinn2, Except.toOption]
+
+/-- the same through the string interface (`jbn_at` / `jbl_at`): parse, then look up -/
+theorem at_path_agree (v : JVal) (p : Bytes) (toks : List Bytes) (hw : wf v = true) (hs : small v)
+    (hn : ∀ b ∈ p, b ≠ 0) (ht : tildesOk p = true) (hl : ¬ (p.length > 1 ∧ p.getLast? = some 47))
+    (hr : rfcSegments p = some toks) (hlen : toks.length ≤ Gen.Binn.JBL_MAX_NESTING_LEVEL)
+    (hj : ∀ seg ∈ toks, segOk seg) :
+    ∃ b, fromNode v = some b ∧
+      (atTree v p).toOption = rfcGet v toks ∧
+      (atBinn b p).toOption = (rfcGet v toks).map viewOf := by
+  have hsl : p = [] ∨ p.head? = some 47 := by
+    cases p with
+    | nil => exact Or.inl rfl
+    | cons c rest =>
+      right
+      unfold rfcSegments at hr
+      split at hr
+      · rename_i heq; simp at heq
+      · rename_i heq; simp only [List.cons.injEq] at heq; simp [heq.1]
+      · simp at hr
+  have hp := ptr_parse_spec p hn ht hl hsl
+  obtain ⟨b, hb, h1, h2⟩ := at_agree v toks hw hs hlen hj
+  refine ⟨b, hb, ?_, ?_⟩
+  · simp only [atTree, hp, hr]; exact h1
+  · simp only [atBinn, hp, hr]; exact h2
+
+/-- **clone of the binary form** (`jbl_clone` = `binn_copy` + fresh header): byte-identical document -/
+theorem clone_binn_eq (v : JVal) (bs : Bytes) (hc : isContainer v = true) (he : enc v = some bs)
+    (hs : bs.length + 9 < 2 ^ 31) : copy bs = some bs := by
+  cases v with
+  | arr xs =>
+    simp only [enc, Option.map_eq_some_iff] at he
+    obtain ⟨body, hb, rfl⟩ := he
+    have hl2 := encList_length xs body hb
+    have hcl := container_length Gen.Binn.BINN_LIST xs.length body
+    have hp := parseHeader_container Gen.Binn.BINN_LIST xs.length body [] (Or.inl rfl) (by omega) (by omega)
+    obtain ⟨h', hi, hty, hcnt⟩ := iterInit_container Gen.Binn.BINN_LIST xs.length body (Or.inl rfl) (by omega) (by omega)
+    simp only [List.append_nil] at hp
+    unfold iterInit at hi
+    rw [hp] at hi
+    simp only [Option.some.injEq, Prod.mk.injEq] at hi
+    unfold copy
+    rw [hp]
+    simp only [hi.2]
+  | obj ms =>
+    simp only [enc, Option.map_eq_some_iff] at he
+    obtain ⟨body, hb, rfl⟩ := he
+    have hl2 := encMembers_length [] ms body hb
+    have hcl := container_length Gen.Binn.BINN_OBJECT ms.length body
+    have hp := parseHeader_container Gen.Binn.BINN_OBJECT ms.length body [] (Or.inr rfl) (by omega) (by omega)
+    obtain ⟨h', hi, hty, hcnt⟩ := iterInit_container Gen.Binn.BINN_OBJECT ms.length body (Or.inr rfl) (by omega) (by omega)
+    simp only [List.append_nil] at hp
+    unfold iterInit at hi
+    rw [hp] at hi
+    simp only [Option.some.injEq, Prod.mk.injEq] at hi
+    unfold copy
+    rw [hp]
+    simp only [hi.2]
+  | _ => simp [isContainer] at hc
+
 /-- the writer refuses (JBL_ERROR_CREATION) exactly the objects whose keys do not fit: a key longer than 255
     bytes or equal to an earlier key of the same object ignoring ASCII case -/
 theorem writer_rejects_bad_keys (k k' : Bytes) (v v' : JVal) :
@@ -44,6 +202,15 @@ theorem writer_rejects_bad_keys (k k' : Bytes) (v v' : JVal) :
 theorem nul_string_cut :
     (fromNode (.arr [.str [97, 0, 98]])).bind (toNode 5) = some (.arr [.str [97]]) := by
   rfl
+
+/-- non-vacuity of the look-up theorems: `/b/0` and the escaped `/m~1n~0` on a well-formed document -/
+example :
+    let v : JVal := .obj [([98], .arr [.str [104, 105], .null]), ([109, 47, 110, 126], .int 7)]
+    wf v = true ∧ rfcSegments [47, 98, 47, 48] = some [[98], [48]] ∧
+    rfcGet v [[98], [48]] = some (.str [104, 105]) ∧
+    rfcSegments [47, 109, 126, 49, 110, 126, 48] = some [[109, 47, 110, 126]] ∧
+    rfcGet v [[109, 47, 110, 126]] = some (.int 7) ∧ tildesOk [47, 109, 126, 49, 110, 126, 48] = true := by
+  refine ⟨by decide, by decide, by rfl, by decide, by rfl, by decide⟩
 
 /-- non-vacuity: a document satisfying the hypotheses, with its binary form -/
 example : wf (.obj [([97], .int (-5)), ([98], .arr [.str [104, 105], .null])]) = true ∧
